@@ -74,7 +74,8 @@ Inductive xmode := XAll | XAny.
 
 Definition spec_mode (args : table) : xmode :=
   match lookup [120; 45; 109; 97; 116; 99; 104] args with        (* x-match *)
-  | Some (VStr s) => if bytes_eqb s [97; 110; 121] then XAny else XAll   (* any *)
+  | Some (VStr s) | Some (VBytes s) =>                                   (* a string, short or long *)
+      if bytes_eqb s [97; 110; 121] then XAny else XAll                  (* any *)
   | _ => XAll
   end.
 
